@@ -568,7 +568,8 @@ func c17Body(c *core.Ctx) {
 				n, kind := parseRSOp(op)
 				Safely(func() { enc.Encode(rsData(kind, f, n), n) })
 			}
-			return cacheKey(utils.VerifRSCache(enc))
+			// every field of the encoder (reflection), not only the polynomial list the hook knows about
+			return utils.VerifDeepKey(enc)
 		}
 		frontier := []node{{nil}}
 		seen[key(nil)] = true
@@ -627,6 +628,33 @@ func c17Body(c *core.Ctx) {
 			}
 		}
 	}
+	// 4. data sweeps: every 3-symbol data vector (small fields) / a 2-symbol-exhaustive slice (large
+	// fields): check symbols that start with zeros, cancel, or equal the data are all in here
+	for _, f := range fields {
+		ns, cmode := []int{1, 2, 3, 4, 5, 6, 7, 8}, 0
+		switch {
+		case f.size == 64:
+			ns = []int{2, 3, 5}
+		case f.size == 256:
+			ns, cmode = []int{3, 7}, 1
+			if c.Thorough() {
+				ns, cmode = []int{2, 3, 7}, 0
+			}
+		case f.size > 256:
+			continue
+		}
+		for _, n := range ns {
+			for a := 0; a < f.size; a++ {
+				for b := 0; b < f.size; b++ {
+					if f.size == 256 && !c.Thorough() && b%4 != a%4 {
+						continue
+					}
+					Run(c, &core.Case{Fam: "rsdata", P: []int{f.pp, f.size, f.base, n, a, b, cmode}})
+				}
+			}
+		}
+		c.R.Bound(fmt.Sprintf("rsdata.%#x/%d", f.pp, f.size), fmt.Sprintf("data vectors [a,b,c] and [c,a,b], check counts %v, c over %s", ns, map[int]string{0: "the whole field", 1: "4 values (quick)"}[cmode]))
+	}
 	c.R.Sample(map[string]any{"kind": "field row", "case": "gfrow(0x11d,256,0,a=2): Multiply/Divide/Invers against carry-less reference for all b, associativity for all (b,c)"})
 	c.R.Sample(map[string]any{"kind": "rs history", "ops": []string{"8:count", "3:lead0", "13:max"}, "oracle": "syndromes zero at alpha^base.., result == reference, cache == reference generators"})
 }
@@ -640,7 +668,42 @@ func hash64(s string) uint64 {
 	return h
 }
 
+// rsdata: P = [pp,size,base,n,a,b,cmode]: every data vector [a,b,c] (c over the whole field, or
+// over a few values when cmode = 1) on a fresh encoder with n check symbols.
+func evalRSData(c *core.Ctx, cs *core.Case) {
+	f := fieldSpec{cs.P[0], cs.P[1], cs.P[2]}
+	n, a, b, cmode := cs.P[3], cs.P[4], cs.P[5], cs.P[6]
+	rf := refField{f.pp, f.size}
+	enc := utils.NewReedSolomonEncoder(realField(f))
+	cvals := []int{1, 2, f.size/3 + 2, f.size - 1}
+	if cmode == 0 {
+		cvals = cvals[:0]
+		for v := 0; v < f.size; v++ {
+			cvals = append(cvals, v)
+		}
+	}
+	var cnt int64
+	for _, cv := range cvals {
+		for _, data := range [][]int{{a, b, cv}, {cv, a, b}} {
+			cnt++
+			var res []int
+			keep := append([]int(nil), data...)
+			if p, w := Safely(func() { res = enc.Encode(data, n) }); p {
+				c.Fail("C17", cs, "Encode(%v,%d) panicked: %s", keep, n, firstLine(w))
+				return
+			}
+			if msg := rsCheck(rf, f, keep, n, res); msg != "" {
+				c.Fail("C17", cs, "Encode(%v,%d): %s", keep, n, msg)
+				return
+			}
+		}
+	}
+	c.R.Transitions += cnt
+	c.R.Count("rs.data_vectors", cnt)
+}
+
 func init() {
+	Evaluators["rsdata"] = evalRSData
 	Evaluators["gfrow"] = evalGFRow
 	Evaluators["gfpoly"] = evalGFPoly
 	Evaluators["rs"] = evalRS
